@@ -127,17 +127,34 @@ def run(ctx, res):
                 comps |= set(re.findall(r"\b%s->m\.\w+@[\d?]+" % re.escape(rname), text))
                 sig = site(f, "%s(%s)" % (callee, _short(ptr, ln, M, S)))
                 missing = []
+                wraps = []
                 for t in sorted(comps):
                     ok = False
+                    wrapcand = False
+                    wide = not t.startswith("mtbl_fixed_decode32(")
                     for gi, a, b, c in guards:
                         if gi > i:
                             break
+                        side = None
                         if t in a and S is not None and S in b and GT not in c:
-                            ok = True
+                            side = a
                         if t in b and S is not None and S in a and LT not in c:
-                            ok = True
+                            side = b
+                        if side is None:
+                            continue
+                        if wide and side != t and "+" in side:
+                            # a 64-bit file-derived quantity inside a sum: the sum may wrap; need sum >= one of its terms established too
+                            wrap_ok = any(gj <= i and ((ga == side and gb in side and gb != side and LT not in gc) or
+                                                       (gb == side and ga in side and ga != side and GT not in gc))
+                                          for gj, ga, gb, gc in guards)
+                            if not wrap_ok:
+                                wrapcand = True
+                                continue
+                        ok = True
                     if not ok:
                         missing.append(_short(t, "", M, S))
+                        if wrapcand:
+                            wraps.append(_short(t, "", M, S))
                 # the file size itself used as an offset (trailer): needs size >= constant
                 if S is not None and S in ptr.replace(M, ""):
                     m = re.search(r"\(%s-#(\d+)\)" % re.escape(S), ptr)
@@ -146,6 +163,11 @@ def run(ctx, res):
                         ok = any(gi < i and a == S and b == k and LT not in c for gi, a, b, c in guards)
                         if not ok:
                             missing.append("file size >= %s" % m.group(1))
+                if wraps and missing:
+                    res.bad("C19.R1", sig + ":wrap", "%s: the only comparison that relates %s to the file size adds it to other terms first; a 64-bit value read from "
+                            "the file can make that sum wrap around and pass the test (no `sum >= term` check accompanies it)" % (callee, ", ".join(sorted(set(wraps)))),
+                            f.loc(e.node), p.describe(f))
+                    missing = [m_ for m_ in missing if m_ not in wraps]
                 res.check(not missing, "C19.R1", sig,
                           "every file-derived component of the extent is compared with the file size before the read",
                           "%s reads the mapping at an extent that depends on %s, which no preceding comparison relates to the file size: "
